@@ -502,6 +502,8 @@ package semver
 //@   assert at "this.rank = vector": imp(mergeable(this, next, arb(v, "*Version")) &&
 //@          (in3(this.min, this.minOpen, this.max, this.maxOpen, arb(v, "*Version")) || in3(next.min, next.minOpen, next.max, next.maxOpen, arb(v, "*Version"))),
 //@              in3(this.min, this.minOpen, next.max, next.maxOpen, arb(v, "*Version")))
+//@   assert at "this.rank = vector": imp(mergeable(this, next, arb(v, "*Version")) && in3(this.min, this.minOpen, next.max, next.maxOpen, arb(v, "*Version")),
+//@          in3(this.min, this.minOpen, this.max, this.maxOpen, arb(v, "*Version")) || in3(next.min, next.minOpen, next.max, next.maxOpen, arb(v, "*Version")))
 //@   property C09 C03
 
 // ---------------------------------------------------------------------------
@@ -708,11 +710,31 @@ package semver
 // Three numbers, none of them a wildcard or ∞.
 //@ pred okNums3(v *Version) = len(v.num) == 3 && 0 <= v.num[0] && v.num[0] < infinity && 0 <= v.num[1] && v.num[1] < infinity && 0 <= v.num[2] && v.num[2] < infinity
 
+// setNum writes number i, growing the list with zeros when it is too short: it
+// touches only the receiver's num field, the array behind it and the receiver's
+// own buffer; an index inside the list changes that one element only.
+//@ func (*Version).setNum
+//@   requires v != nil && 0 <= i
+//@   ensures imp(old(len(v.num) > 0), touches(&v.num, v.num))
+//@   ensures touches(&v.num, v.num, &v.buf)
+//@   ensures i < len(v.num) && v.num[i] == val
+//@   ensures imp(old(i < len(v.num)), samearr(v.num, old(v.num)) && len(v.num) == old(len(v.num)) && cap(v.num) == old(cap(v.num)) &&
+//@           rowis(v.num, old(v.num), i, val))
+//@   ensures samearr(v.num, old(v.num)) || fresh(v.num) || backed(v.num, &v.buf)
+//@   loop 0
+//@     invariant imp(old(i < len(v.num)), touches())
+//@     invariant imp(old(len(v.num) > 0), touches(&v.num, old(v.num)) && len(v.num) > 0 && (samearr(v.num, old(v.num)) || fresh(v.num)))
+//@     invariant touches(&v.num, old(v.num), &v.buf) && (samearr(v.num, old(v.num)) || fresh(v.num) || backed(v.num, &v.buf))
+//@   property C03
+
 // inc on such a version without prerelease steps the last number.
 //@ func (*Version).inc
 //@   requires v != nil
-//@   ensures imp(old(okNums3(v)) && old(len(v.pre) == 0), result == nil && touches(v.num))
-//@   ensures imp(old(okNums3(v)) && old(len(v.pre) == 0), v.num[0] == old(v.num[0]) && v.num[1] == old(v.num[1]) && v.num[2] == old(v.num[2]) + 1)
+//@   ensures touches(&v.num, v.num, &v.buf)
+//@   ensures imp(old(okNums3(v)) && old(len(v.pre) == 0), result == nil && samearr(v.num, old(v.num)) && len(v.num) == 3 && cap(v.num) == old(cap(v.num)) &&
+//@           rowis(v.num, old(v.num), 2, old(v.num[2]) + 1))
+//@   loop 1
+//@     invariant touches(&v.num, old(v.num), &v.buf) && (samearr(v.num, old(v.num)) || fresh(v.num) || backed(v.num, &v.buf))
 //@   property C03
 
 // MinVersion of a semver-like system rewrites its argument into 0.0.0-0.
